@@ -3,6 +3,46 @@
 import json, subprocess
 
 CLAIMED = {
+ "C02": dict(level="model_checking", engine="e2-all",
+   technique="explicit-state BFS of strict sequentially-consistent reference models (all interleavings at operation granularity) vs. the set of outcomes over ALL schedules of the real runtime enumerated by the explorer-scheduler; outcome-set inclusion per program",
+   text="For every generated program of the 7 primitive families (Mutex/RwLock, atomics, Condvar/Barrier/Once/park, mpsc, spawn/join/scope/TLS, BatchSemaphore, async tasks) the set of outcomes (per-thread results + ending) of the strict model must be contained in the set produced by the fully explored schedule tree: an outcome nobody produces is an interleaving the runtime cannot reach (a missing scheduling point). Missing outcomes are attributed to a recorded finding only if the model with exactly that operation fused to its predecessor has all its outcomes produced.",
+   note="Trusted: strict reference models; judged only on fully explored trees; programs with JoinHandle::abort are excluded (abort timing is modelled loosely). Small-scope hypothesis.",
+   design="DESIGN.md §4 C02"),
+ "C03": dict(level="model_checking", engine="e2-all",
+   technique="stateless exhaustive exploration + co-simulation; oracle restricted to the ending of every execution",
+   text="For every execution of every program of the 7 families (lock cycles, lost notifications, closed channels, never-woken futures, detached tasks, parked threads, leaked guards, unjoined threads): a deadlock report with exactly the reported task ids must be an ending of a model state consistent with the whole log in which no task can progress (spurious wake-ups not counted) and an attached task is unfinished; otherwise the run must end normally with every attached task finished; a 20000-step horizon turns a hang into a failure.",
+   note="Trusted: reference models (strict enabledness). Endings are judged for executions whose steps the model accepts.",
+   design="DESIGN.md §4 C03"),
+ "C08": dict(level="exploration", engine="e2-all+wrappers",
+   technique="stateless exhaustive exploration with a contract checker at every scheduler call, incl. exhaustive 'scheduler returns None here' children; wrapper transparency by comparing complete choice trees",
+   text="At every decision of every execution of the 7 families: runnable list non-empty, strictly ascending, only runnable/spuriously-wakeable tasks, contains every task the strict model can run, current_task = previously chosen task, is_yielding exactly after an explicit yield, only the chosen task's code runs between decisions; a second pass answers None at every decision of every execution (run must continue without failure); Metrics and UncontrolledNondeterminismCheck wrappers must expose the identical choice tree to the inner scheduler.",
+   note="Trusted: reference models for 'able to run'; decision stamps for 'no foreign code'. AnnotationScheduler needs the `annotation` feature and is not exercised.",
+   design="DESIGN.md §4 C08"),
+ "C09": dict(level="exploration", engine="sched",
+   technique="exhaustive enumeration of abstract choice trees (all shapes up to depth/branching bounds, several labellings incl. path-dependent offered sets) driving the real DfsScheduler with synthetic Tasks; integration through the real runtime against the independent explorer",
+   text="On every tree: unbounded DFS visits every leaf exactly once then returns None; every iteration bound 0..leaves+1 gives min(m,leaves) distinct leaves; every step cut gives exactly the distinct prefixes; same data stream in every execution. Quick: 1.97 M trees (all d<=3/b<=3, d<=2/b<=4, d<=4/b<=2); thorough adds all 1.13 G shapes of d<=5/b<=2. Real bodies: DfsScheduler/check_dfs leaf sets equal the explorer's.",
+   note="Trusted: the tree enumerator; scheduler driven outside the runtime is cross-validated by replaying recorded runtime runs call for call.",
+   design="DESIGN.md §4 C09"),
+ "C10": dict(level="exploration", engine="sched",
+   technique="exhaustive enumeration of a seed interval (2^16 quick / 2^22 thorough) x abstract programs and real bodies; exact counts for the distribution clause",
+   text="For every seed of the interval: two instances give identical runs (Random and URW); every iteration's reported seed reproduces that iteration through new_from_seed(seed,1) incl. data draws; failing-seed message and SHUTTLE_RANDOM_SEED override checked in child processes; distribution: exact counts per offered-list length / position / history class within a fixed 6.5 sigma tolerance, every leaf of every d<=3/b<=3 tree visited. The distribution clause is evidence from an exhaustively enumerated interval, not a proof over 2^64 seeds.",
+   note="Trusted: rand's choose/shuffle uniformity beyond the interval; tolerances fixed so verdicts are deterministic.",
+   design="DESIGN.md §4 C10"),
+ "C11": dict(level="model_checking", engine="sched",
+   technique="reference PCT model (explicit priority order, change points) compared decision by decision with the real PctScheduler over an exhaustively enumerated seed interval and all small trees; exhaustive enumeration of the model (all n! orders x change-point sets) for the probability bound",
+   text="Every iteration >= 2: change points distinct, in [1,max_steps), min(depth-1,max_steps-1) many; every decision equals the model's; priorities change only at creation / yield / change points demoting current; exactly max_iterations executions; same seed => same run. Bound: for 565 bugs of 6 programs the exact model probability >= 1/(n k^(d-1)); over the interval the real scheduler realises every model choice with frequency within tolerance.",
+   note="Trusted: PctScheduler's Debug output as read-only snapshot (format drift = machinery error); the reference model.",
+   design="DESIGN.md §4 C11"),
+ "C12": dict(level="fault_enumeration", engine="c12",
+   technique="exhaustive enumeration of run histories (failing kind x persistence mode x earlier runs x thread placement x scheduler) each executed in a fresh child process",
+   text="2227 (63238 thorough) histories of <= 3-4 configured runs: 7 failing kinds (panic in main / spawned thread / future / while holding a guard, two deadlocks, FailAfter) x {None, Print, File(dir)} x earlier runs, same/other thread, portfolio runs: the caller gets the task's own payload or the condition message, a schedule is emitted exactly in the configured way (nothing with None), replaying it reproduces the failure, a portfolio fails iff a member does.",
+   note="Trusted: stderr segmentation by marker lines; directory snapshots. 'Exactly one schedule' relaxed to 'at least one, in the configured place' (a panic while holding a contended guard prints a truncated and a complete schedule).",
+   design="DESIGN.md §4 C12"),
+ "C13": dict(level="exploration", engine="c13",
+   technique="exhaustive configuration grid over bodies with step counts measured on every schedule by the explorer: n in [L-3,L+3] x {None,FailAfter,ContinueAfter} x every scheduler x budgets 0..5 x max_time {None,0}, each cell in a supervised child process",
+   text="42648 (1.16 M thorough) cells: steps since the last reset never exceed n; above the bound FailAfter fails with the max-steps message and ContinueAfter abandons silently and goes on; below it the execution equals its unbounded twin; invocations = returned count = iteration budget.",
+   note="L == n not judged; max_time=0 accepts count 0 or 1 with a sleeping body.",
+   design="DESIGN.md §4 C13"),
  "C04": dict(level="model_checking", engine="e2-lock,e2-atomic",
    technique="stateless exhaustive exploration of the real primitives under an explorer plugged in as Shuttle's Scheduler + explicit-state BFS of a reference lock model + step-by-step co-simulation (trace conformance) of every execution",
    text="Every schedule of every generated program (<=3 threads, <=3-4 ops each over Mutex/RwLock lock/try/unlock incl. re-entrant tries) is executed against the real shuttle::sync primitives and co-simulated on a contract model (holder/readers/writer): each return value, each point where a task that could run is not offered, and each ending must be allowed by the model. Exhaustive within the stated program sizes.",
